@@ -226,6 +226,24 @@ impl Sched {
 
 pub const MAX_STEPS: usize = 200_000;
 
+/// (name, number in the simulated system) of the signals shown in snapshots
+pub const SIGNALS: &[(&str, i32)] = &[
+    ("HUP", 1),
+    ("INT", 2),
+    ("QUIT", 3),
+    ("KILL", 9),
+    ("TERM", 15),
+    ("CHLD", 102),
+    ("CONT", 103),
+    ("PIPE", 110),
+    ("STOP", 116),
+    ("TSTP", 120),
+    ("TTIN", 121),
+    ("TTOU", 122),
+    ("USR1", 124),
+    ("USR2", 125),
+];
+
 fn signum(n: i32) -> yash_env::signal::Number {
     yash_env::signal::Number::from_raw_unchecked(std::num::NonZero::new(n).unwrap())
 }
@@ -258,8 +276,9 @@ pub struct TraceEntry {
 struct RunCtx {
     trace: Vec<TraceEntry>,
     state: Option<Rc<RefCell<SystemState>>>,
-    ofds: Vec<Rc<RefCell<OpenFileDescription>>>,
-    inodes: Vec<Rc<RefCell<Inode>>>,
+    // weak references: identity without keeping descriptions (pipe ends!) alive
+    ofds: Vec<std::rc::Weak<RefCell<OpenFileDescription>>>,
+    inodes: Vec<std::rc::Weak<RefCell<Inode>>>,
     sched: Option<Rc<Sched>>,
 }
 
@@ -286,20 +305,20 @@ fn with_suppressed_taps<T>(f: impl FnOnce() -> T) -> T {
 fn ofd_id(ofd: &Rc<RefCell<OpenFileDescription>>) -> usize {
     RUN.with(|r| {
         let mut r = r.borrow_mut();
-        if let Some(i) = r.ofds.iter().position(|o| Rc::ptr_eq(o, ofd)) {
+        if let Some(i) = r.ofds.iter().position(|o| std::ptr::eq(o.as_ptr(), Rc::as_ptr(ofd))) {
             return i;
         }
-        r.ofds.push(Rc::clone(ofd));
+        r.ofds.push(Rc::downgrade(ofd));
         r.ofds.len() - 1
     })
 }
 fn inode_id(ino: &Rc<RefCell<Inode>>) -> usize {
     RUN.with(|r| {
         let mut r = r.borrow_mut();
-        if let Some(i) = r.inodes.iter().position(|o| Rc::ptr_eq(o, ino)) {
+        if let Some(i) = r.inodes.iter().position(|o| std::ptr::eq(o.as_ptr(), Rc::as_ptr(ino))) {
             return i;
         }
-        r.inodes.push(Rc::clone(ino));
+        r.inodes.push(Rc::downgrade(ino));
         r.inodes.len() - 1
     })
 }
@@ -343,6 +362,19 @@ pub fn fd_table(state: &Rc<RefCell<SystemState>>, pid: Pid) -> String {
         ));
     }
     out
+}
+
+/// Replaces every offset in a descriptor-table string by 0 (offsets of the
+/// standard error file move whenever a diagnostic is printed).
+pub fn strip_offsets(table: &str) -> String {
+    table
+        .split_whitespace()
+        .map(|tok| match (tok.find('@'), tok.rfind('i')) {
+            (Some(a), Some(b)) if a < b => format!("{}@0{}", &tok[..a], &tok[b..]),
+            _ => tok.to_string(),
+        })
+        .collect::<Vec<_>>()
+        .join(" ")
 }
 
 fn trap_state_str(t: &yash_env::trap::TrapState) -> String {
@@ -429,8 +461,8 @@ pub fn snapshot(env: &mut Env<VS>) -> BTreeMap<&'static str, String> {
         let p = &st.processes[&pid];
         m.insert("cwd", format!("{:?}", p.getcwd()));
         let mut disp = String::new();
-        for n in [1, 2, 3, 10, 13, 15, 17, 18, 19, 20, 21, 22] {
-            disp.push_str(&format!("{}:{:?},", n, p.disposition(signum(n))));
+        for (name, n) in SIGNALS {
+            disp.push_str(&format!("{}:{:?},", name, p.disposition(signum(*n))));
         }
         m.insert("dispositions", disp);
         let mut blocked: Vec<i32> = p.blocked_signals().iter().map(|s| s.as_raw()).collect();
